@@ -1,10 +1,17 @@
-(* C15, global form: what acceptance by the DER decoder says about the WHOLE input.
+(* C15, global form: what acceptance by the DER / CER decoders says about the WHOLE input.
 
-   Phase A  every successful run of [dec_call DER] consumed exactly one TLV, and the run is
-            described by a derivation [D] (which value decoder was chosen for which element,
-            at every depth): no indefinite length is ever accepted, strings are primitive,
-            BOOLEAN contents are 00/FF.  Any guiding type without ANY (whose content is opaque).
-   Phase B  the derivation, read against the independent TLV parser of Spec/X690.v. *)
+   Phase A  (sections 0-4) every successful run of [dec_call DER] consumed exactly one TLV, and the run is
+            described by a derivation [D] (which value decoder was chosen for which element, at every
+            depth): no indefinite length is ever accepted, strings are primitive, BOOLEAN contents are
+            00/FF.  Any guiding type without ANY (whose content is opaque), or none.
+   Phase B  (5-8) the derivation read against the independent TLV parser of Spec/X690.v:
+            [der_accepts_der_shape] (no guiding type, [der_shape] on the parse tree),
+            [der_accepts_gshape] (guiding type without ANY/CHOICE, [gshape T] on the parse tree),
+            [der_accepts_definite] (any guiding type without ANY: no indefinite length anywhere).
+   9        [boolean_strict_everywhere]: CER and DER, at the dispatcher, any depth, any tagging.
+   10       CER with indefinite lengths: [eoo_only], derivation [E], [cer_accepts_boolean_strict]
+            ([cok] on the parse tree), guiding types without strings/ANY/CHOICE.
+   Findings: [constructed_boolean_accepted] (defect), [reserved_length_accepted], [any_is_opaque]. *)
 From Coq Require Import Lia.
 From PV Require Import Base.Bytes Model.Tag Model.Types Model.TableTypes Model.Proc Model.Enc Model.Dec
      Gen.Tables Spec.X690 Proofs.ProcBind Proofs.RunLemmas.
@@ -1821,6 +1828,15 @@ Proof. vm_compute. repeat split. Qed.
 Example any_is_opaque :
   exists d, decode DER (Some (TExp (mkTag Ctx false 0) TAny)) [160; 4; 36; 128; 0; 0] = Ok (d, []).
 Proof. vm_compute. eexists. reflexivity. Qed.
+
+(* with a CHOICE in the guiding type (not covered by gshape) the definite-length statement still applies *)
+Example der_accepts_definite_ex :
+  let T := TSeqOf (TChoice [TBool; TImp (mkTag Ctx false 1) TOcts]) in
+  guide_ok (Some T) /\ (exists d, decode DER (Some T) [48; 6; 1; 1; 255; 129; 1; 65] = Ok (d, []))
+  /\ decode DER (Some T) [48; 128; 1; 1; 255; 0; 0] = Err EMalformed
+  /\ decode DER (Some T) [48; 5; 161; 3; 4; 1; 65] = Err EMalformed
+  /\ decode DER (Some T) [48; 3; 1; 1; 7] = Err EMalformed.
+Proof. vm_compute. split; [reflexivity|]. split; [eexists; reflexivity|]. repeat split. Qed.
 
 Print Assumptions derivation_gshape.
 Print Assumptions der_accepts_gshape.
